@@ -65,6 +65,7 @@ class FibRun:
         self.handled = []       # {'h','i'}
         self.wire = []
         self.rets = []
+        self.good_digests = []  # parameter digests of the correctly built Interests delivered so far
         self.replyfn = {}       # int id -> reply callable (v2)
         self.intinfo = {}       # int id -> dict(it, name, wire)
         self.vq = []            # pending validator futures: (int id, fut)
@@ -226,8 +227,15 @@ class FibRun:
                 dig = bytes(enc.Component.get_value(fullname[-1]))
                 k = bytes(w).find(dig)
                 assert k >= 0 and len(dig) == 32
-                w[k + 5] ^= 0x40
+                # a wrong digest is either a damaged one or the (correct) digest of an earlier Interest's parameters
+                prev = [d for d in self.good_digests if d != dig]
+                if prev and i % 2 == 0:
+                    w[k:k + 32] = prev[-1]
+                else:
+                    w[k + 5] ^= 0x40
                 fullname = enc.parse_interest(bytes(w))[0]
+            elif it['params'] or it['signed']:
+                self.good_digests.append(bytes(enc.Component.get_value(fullname[-1])))
             w = bytes(w)
             self.intinfo[i] = {'it': it, 'fullname': fullname, 'wire': w}
             tok = TOKENS[it['tok']]
@@ -278,6 +286,10 @@ class FibRun:
         elif a == 'Shutdown':
             self.app.shutdown()
             loop.settle(timers_now=False)
+        elif a == 'Connect':
+            # main_loop again on the same application object (the previous one has returned)
+            self.main = self.sess.spawn(self.app.main_loop())
+            loop.settle(timers_now=False)
         elif a == 'RecvJunk':
             w = bytes.fromhex(ev['hex'])
             ex = deliver(self.sess, self.face, w, timers_now=False) if len(w) > 0 else None
@@ -325,7 +337,7 @@ class DispatcherRun:
             ret = self.d.dispatch(enc.Name.from_str(nm(ev['it']['name'])), enc.InterestParam(nonce=NONCE0 + self.nint), None)
             if bool(ret) != (len(self.handled) > before):
                 self.bg.append('dispatch-return-value-untruthful')
-        elif a in ('Tick', 'RecvJunk', 'Shutdown'):
+        elif a in ('Tick', 'RecvJunk', 'Shutdown', 'Connect'):
             pass
         else:
             raise ValueError(a)
